@@ -302,6 +302,86 @@ def cmd_one(args):
   return 0
 
 
+def cmd_survey(args):
+  """Debug: run N generated scenarios of a world, print violations of all
+  properties grouped by signature."""
+  runner.preload()
+  mod = importlib.import_module('worlds.' + args.world)
+  kv = {}
+  for a in args.kv:
+    k, v = a.split('=', 1)
+    try:
+      v = json.loads(v)
+    except ValueError:
+      pass
+    kv[k] = v
+  scns = []
+  for i in range(args.runs):
+    rng = random.Random('survey/%s/%d' % (args.seed, i))
+    scn = mod.generate(rng, args.tier, **kv)
+    scn['world'] = args.world
+    scn['seed'] = sub_seed('survey', args.seed, i)
+    scns.append(scn)
+  t0 = time.time()
+  res = runner.run_batch(scns)
+  groups = {}
+  errs = []
+  probes = {}
+  faults = {}
+  crashes = {}
+  for scn, r in zip(scns, res):
+    if not r.get('ok'):
+      errs.append((scn['seed'], r.get('error')))
+      continue
+    for k, v in r['probes'].items():
+      probes[k] = probes.get(k, 0) + v
+    for k, v in r['faults'].items():
+      faults[k] = faults.get(k, 0) + v
+    for c in r.get('crashes', ()):
+      k = '%s@%s' % (c['type'], c['site'])
+      crashes.setdefault(k, [0, c['msg'], scn['seed']])[0] += 1
+    for v in r['violations']:
+      g = groups.setdefault(sig_key(v), [0, v, scn])
+      g[0] += 1
+  print('%d runs in %.1fs, %d errors' % (len(scns), time.time() - t0, len(errs)))
+  for seed, e in errs[:3]:
+    print('ERROR seed=%s: %s' % (seed, (e or '')[-1200:]))
+  for k, (n, v, scn) in sorted(groups.items()):
+    print('%4d x %s/%s %s   e.g. seed=%d: %s' % (n, v['property'], v['rule'], json.dumps(v['sig']), scn['seed'], v['msg'][:300]))
+  if args.verbose:
+    print('probes', json.dumps(probes, sort_keys=True))
+    print('faults', json.dumps(faults, sort_keys=True))
+  for k, (n, msg, seed) in sorted(crashes.items()):
+    print('crash %4d x %s (%s) seed=%d' % (n, k, msg[:100], seed))
+  if args.save:
+    os.makedirs(os.path.join(HERE, 'replays'), exist_ok=True)
+    for k, (n, v, scn) in sorted(groups.items()):
+      if args.save in ('all', v['rule'], v['property']):
+        path = os.path.join(HERE, 'replays', 'survey-%s-%s-%d.json' % (v['property'], v['rule'], scn['seed']))
+        json.dump({'property': v['property'], 'rule': v['rule'], 'sig': v['sig'], 'message': v['msg'],
+                   'scenario': scn, 'digest': None}, open(path, 'w'), indent=1)
+        print('saved', path)
+  return 0
+
+
+def cmd_shrink(args):
+  runner.preload()
+  rp = json.load(open(args.file))
+  scn = rp['scenario']
+  mod = importlib.import_module('worlds.' + scn['world'])
+  mscn, note = shrink.minimise(scn, rp['property'], rp['rule'],
+                               keys=getattr(mod, 'SHRINK_KEYS', ('faults', 'directives', 'ops')),
+                               simplify=getattr(mod, 'simplify', None), budget=args.budget)
+  res = runner.run_one(mscn)
+  vv = [x for x in res.get('violations', []) if x['property'] == rp['property'] and x['rule'] == rp['rule']]
+  if not vv:
+    print('lost the violation while shrinking')
+    return 2
+  path = write_replay(rp['property'], vv[0], mscn, res, note)
+  print(note, path)
+  return 0
+
+
 def cmd_selftest(args):
   from sim import selftest
   if args.what == 'determinism':
@@ -334,6 +414,17 @@ def main():
   o.add_argument('--tier', default='quick')
   o.add_argument('--trace', action='store_true')
   o.add_argument('--scn', action='store_true')
+  v = sp.add_parser('survey')
+  v.add_argument('world')
+  v.add_argument('kv', nargs='*')
+  v.add_argument('--runs', type=int, default=200)
+  v.add_argument('--seed', default='0')
+  v.add_argument('--tier', default='quick')
+  v.add_argument('--verbose', action='store_true')
+  v.add_argument('--save')
+  k = sp.add_parser('shrink')
+  k.add_argument('file')
+  k.add_argument('--budget', type=float, default=60)
   s = sp.add_parser('selftest')
   s.add_argument('what')
   s.add_argument('--fast', action='store_true')
@@ -347,6 +438,10 @@ def main():
     return cmd_one(args)
   if args.cmd == 'selftest':
     return cmd_selftest(args)
+  if args.cmd == 'survey':
+    return cmd_survey(args)
+  if args.cmd == 'shrink':
+    return cmd_shrink(args)
   ap.print_help()
   return 2
 
